@@ -240,3 +240,14 @@ for Atomic<'static, ItemType, BUFFER_SIZE, MAX_STREAMS> {
     }
 
 }
+
+/// verification hooks: gives the external harness access to the components (to name their shared cells)
+#[cfg(feature = "verif")]
+impl<'a, ItemType:          'a + Send + Sync + Debug + Default,
+         const BUFFER_SIZE: usize,
+         const MAX_STREAMS: usize>
+Atomic<'a, ItemType, BUFFER_SIZE, MAX_STREAMS> {
+    pub fn verif_parts(&self) -> (&StreamsManagerBase<MAX_STREAMS>, &AtomicMove<ItemType, BUFFER_SIZE>) {
+        (&self.streams_manager, &self.channel)
+    }
+}
